@@ -12,6 +12,7 @@ import NemoVerif.Lemmas.StreamAsIs
 import NemoVerif.Lemmas.StreamUsage
 import NemoVerif.Lemmas.StreamTopK
 import NemoVerif.Lemmas.StreamPipeCfg
+import NemoVerif.Lemmas.StreamFind
 import NemoVerif.Generated.C18
 namespace NemoVerif.C18
 open NemoVerif.Stream
@@ -66,6 +67,12 @@ theorem cut_is_earliest (S : List Str) (t u : Str) :
 theorem no_cut_iff_no_stop (S : List Str) (t : Str) :
     cutStop S t = none ↔ ∀ u r, t = u ++ r → stopHere S r = false :=
   cutStop_none_iff S t
+
+/-- Meaning of "cut at the first stop sequence" (3): the scan is the source's formula
+    `completion[: min(completion.find(s) for s in self.stop if s in completion)]` (`cutMin`), for every list of
+    stop sequences (the empty string included) and every text. -/
+theorem cut_is_min_find (S : List Str) (t : Str) : cutStop S t = cutMin S t :=
+  cutStop_eq_cutMin S t
 
 /-- Hold-back safety: a text that does not end inside a pattern can be released — whatever follows,
     the first stop sequence of the whole text is the one already visible, or lies in what follows. -/
